@@ -145,16 +145,18 @@ SLOW = {"slow": 1}      # 100 Hz timer, all times of the alphabet in units of 10
 PROPS["C11"] = {
     "level": "model_checking",
     "technique": "explicit-state BFS over heartbeat frames, 1016h writes, counter/state queries and ticks against a reference monitor per consumer entry",
-    "text": "Consumer tables of 1..4 entries (6 initial configurations). Events: heartbeat frames of two monitored nodes and one unmonitored node with states {0,4,5,127}; SDO write of {node X|Y, time 0|2|3} and {0,0} to every entry followed by a read-back; CONmtGetHbEvents and CONmtLastHbState for the three nodes; tick; 765 ticks of silence (counter saturation); NMT stop/start/reset communication. After every step the CONmtHbConsEvent / CONmtHbConsChange callbacks (multiset per node), the return values of the queries, the SDO verdict (0604 0043h and no change for a node that is already monitored, acceptance otherwise) and the read-back value are compared with the reference; entries not addressed by a write must keep their monitoring. Two of the tables run once more on a 100 Hz timer with every time given in units of 10 ms. A seventh table has four entries with four distinct times (2, 3, 4, 6 ticks) and an alphabet reduced to the four heartbeats and the tick, explored to depth 9 (13): four consumer timers pending at once, a re-armed one queued before, between and behind the others. Two tables are explored once more with the monitored node ids at the ends of the range (127, 126, 2, 3). One table is explored once more with the heartbeat state bytes {85h, FFh, 5, 127}: bytes CiA 301 does not define are one 'unknown' state that differs from every defined one.",
+    "text": "Consumer tables of 1..4 entries (6 initial configurations). Events: heartbeat frames of two monitored nodes and one unmonitored node with states {0,4,5,127}; SDO write of {node X|Y, time 0|2|3} and {0,0} to every entry followed by a read-back; CONmtGetHbEvents and CONmtLastHbState for the three nodes; tick; 765 ticks of silence (counter saturation); NMT stop/start/reset communication. After every step the CONmtHbConsEvent / CONmtHbConsChange callbacks (multiset per node), the return values of the queries, the SDO verdict (0604 0043h and no change for a node that is already monitored, acceptance otherwise) and the read-back value are compared with the reference; entries not addressed by a write must keep their monitoring. Two of the tables run once more on a 100 Hz timer with every time given in units of 10 ms. A seventh table has four entries with four distinct times (2, 3, 4, 6 ticks) and an alphabet reduced to the four heartbeats and the tick, explored to depth 9 (13): four consumer timers pending at once, a re-armed one queued before, between and behind the others. Two tables are explored once more with the monitored node ids at the ends of the range (127, 126, 2, 3). One table is explored once more with the heartbeat state bytes {85h, FFh, 5, 127}: bytes CiA 301 does not define are one 'unknown' state that differs from every defined one. Two tables (two and four entries) are explored once more with a timer pool that holds exactly one timer per entry: a consumer that needs a spare timer while it re-arms in its own timeout callback stops monitoring there.",
     "note": "'already monitored' is read literally (any entry, including the written one, configured with that node and a non-zero time); depth-bounded",
     "jobs": {
         "quick": [J("c11", 0, depth=8, deadline=100), J("c11", 1, depth=6, deadline=100), J("c11", 2, depth=6, deadline=100), J("c11", 3, depth=5, deadline=100), J("c11", 4, depth=5, deadline=100), J("c11", 5, depth=5, deadline=100)] +
                  [J("c11", 1, depth=6, deadline=100, opts=SLOW), J("c11", 5, depth=5, deadline=100, opts=SLOW), J("c11", 6, depth=9, deadline=100, allow_dead=True),
-                  J("c11", 1, depth=6, deadline=100, opts={"edge": 1}), J("c11", 5, depth=5, deadline=100, opts={"edge": 1}), J("c11", 1, depth=6, deadline=100, opts={"odd": 1})],
+                  J("c11", 1, depth=6, deadline=100, opts={"edge": 1}), J("c11", 5, depth=5, deadline=100, opts={"edge": 1}), J("c11", 1, depth=6, deadline=100, opts={"odd": 1}),
+                  J("c11", 1, depth=6, deadline=100, opts={"pool": 1}), J("c11", 6, depth=9, deadline=100, allow_dead=True, opts={"pool": 1})],
         "thorough": [J("c11", 0, depth=14, deadline=1200), J("c11", 1, depth=9, deadline=1200, max_states=30000000), J("c11", 2, depth=9, deadline=1200, max_states=30000000),
                      J("c11", 3, depth=8, deadline=1200, max_states=30000000), J("c11", 4, depth=8, deadline=1200, max_states=30000000), J("c11", 5, depth=7, deadline=1200, max_states=30000000)] +
                     [J("c11", 1, depth=9, deadline=1200, max_states=30000000, opts=SLOW), J("c11", 5, depth=7, deadline=1200, max_states=30000000, opts=SLOW), J("c11", 6, depth=13, deadline=1200, max_states=30000000, allow_dead=True),
-                     J("c11", 1, depth=8, deadline=900, max_states=30000000, opts={"edge": 1}), J("c11", 5, depth=6, deadline=900, max_states=30000000, opts={"edge": 1}), J("c11", 1, depth=8, deadline=900, max_states=30000000, opts={"odd": 1})],
+                     J("c11", 1, depth=8, deadline=900, max_states=30000000, opts={"edge": 1}), J("c11", 5, depth=6, deadline=900, max_states=30000000, opts={"edge": 1}), J("c11", 1, depth=8, deadline=900, max_states=30000000, opts={"odd": 1}),
+                     J("c11", 1, depth=8, deadline=900, max_states=30000000, opts={"pool": 1}), J("c11", 6, depth=12, deadline=900, max_states=30000000, allow_dead=True, opts={"pool": 1})],
     },
 }
 
@@ -282,11 +284,11 @@ CL2 = ["CO_CSDO_N=2", "C19_CLIENT=1"]
 PROPS["C19"] = {
     "level": "model_checking",
     "technique": "deviation-bounded exhaustive enumeration of SDO server behaviours against the real SDO client (sequences of back-to-back transfers, one or two deviations placed at every response step), reference client/server with callback, buffer-guard and timer-pool accounting",
-    "text": "The harness plays the SDO server for client 0: a conforming reference server (expedited for <= 4 bytes, segmented otherwise, junk in unused bytes) plus 16 deviation kinds that can be placed at every response step k of a transfer: abort with matching multiplexer (an ordinary code, and each of the six codes the client generates itself: 0504 0000h, 0503 0000h, 0504 0001h, 0604 0043h, 0607 0012h, 0607 0013h) / other-index / other-sub-index multiplexer, silence, late answer while idle, late answer into the next transfer, wrong toggle, four foreign response types per phase, announced size +-1, expedited answer to a segmented request and vice versa, more data than announced (missing c bit + extra segments, over-long last segment), early c bit, request while busy (both API calls), five kinds of response while idle. A case is a sequence of up to 2 (quick) / 3 (thorough) transfers - direction x every size 1..300, 889, 1000, 1999, 2000 x timing profile (timeout, server delay) in {(2,0),(2,1),(5,0),(5,4)} ticks; uploads additionally from servers that put only 6 (every size) or 4 or 1 (sizes <= 40) data bytes into their non-final segments - separated by idle gaps {0, timeout-1, timeout, timeout+1}, with <= 1 (quick) / <= 2 (thorough) deviations per sequence; plus a 70 s timeout (silent server and a server answering after 65.6 s), a long-timeout transfer behind a short one, and a disabled client (1280h:1/:2 bit 31). The smallest and largest size shards, the probe-pair part and the special part are repeated in a build with two clients (CO_CSDO_N=2) in which the transfers run on client 1 (1281h, server node 6) while client 0 is an idle bystander. User buffers are exact-size heap blocks GUARD|size|GUARD checked after every frame. Oracle per step: request frames on 605h equal the reference client's (initiate, announced size, toggle, n, c, data in order); exactly one completion callback per accepted request with code 0 / the server's abort code / 0504 0000h plus exactly one abort frame after [timeout, timeout+1] ticks without a response; upload buffer equals the server's bytes (re-checked at the end of the sequence); busy => CO_ERR_SDO_BUSY without effect; disabled => refused without frame, callback or timer; responses while idle have no effect; timer action and event occupancy return to the pre-request value; nothing happens in an idle tail after the last transfer. Three configurations run once more on a 100 Hz timer (timeouts in units of 10 ms) and once more with a timer pool of exactly one timer (all the client needs). Two configurations run once more with another timer user next to the client: with every accepted request of a 5-tick timeout the application arms a timer that is due earlier and deletes it two ticks later (appt=1), or a one-tick timer that elapses on its own (appt=2), so that the timeout is not the head of the timer list and inherits time from the event before it.",
+    "text": "The harness plays the SDO server for client 0: a conforming reference server (expedited for <= 4 bytes, segmented otherwise, junk in unused bytes) plus 16 deviation kinds that can be placed at every response step k of a transfer: abort with matching multiplexer (an ordinary code, and each of the six codes the client generates itself: 0504 0000h, 0503 0000h, 0504 0001h, 0604 0043h, 0607 0012h, 0607 0013h) / other-index / other-sub-index multiplexer, silence, late answer while idle, late answer into the next transfer, wrong toggle, four foreign response types per phase, announced size +-1, expedited answer to a segmented request and vice versa, more data than announced (missing c bit + extra segments, over-long last segment), early c bit, request while busy (both API calls), five kinds of response while idle. A case is a sequence of up to 2 (quick) / 3 (thorough) transfers - direction x every size 1..300, 889, 1000, 1999, 2000 x timing profile (timeout, server delay) in {(2,0),(2,1),(5,0),(5,4)} ticks; uploads additionally from servers that put only 6 (every size) or 4 or 1 (sizes <= 40) data bytes into their non-final segments - separated by idle gaps {0, timeout-1, timeout, timeout+1}, with <= 1 (quick) / <= 2 (thorough) deviations per sequence; plus a 70 s timeout (silent server and a server answering after 65.6 s), a long-timeout transfer behind a short one, and a disabled client (1280h:1/:2 bit 31). The smallest and largest size shards, the probe-pair part and the special part are repeated in a build with two clients (CO_CSDO_N=2) in which the transfers run on client 1 (1281h, server node 6) while client 0 is an idle bystander. User buffers are exact-size heap blocks GUARD|size|GUARD checked after every frame. Oracle per step: request frames on 605h equal the reference client's (initiate, announced size, toggle, n, c, data in order); exactly one completion callback per accepted request with code 0 / the server's abort code / 0504 0000h plus exactly one abort frame after [timeout, timeout+1] ticks without a response; upload buffer equals the server's bytes (re-checked at the end of the sequence); busy => CO_ERR_SDO_BUSY without effect; disabled => refused without frame, callback or timer; responses while idle have no effect; timer action and event occupancy return to the pre-request value; nothing happens in an idle tail after the last transfer. Three configurations run once more on a 100 Hz timer (timeouts in units of 10 ms) and once more with a timer pool of exactly one timer (all the client needs). Two configurations run once more with another timer user next to the client: with every accepted request of a 5-tick timeout the application arms a timer that is due earlier and deletes it two ticks later (appt=1), or a one-tick timer that elapses on its own (appt=2), so that the timeout is not the head of the timer list and inherits time from the event before it; or (appt=3) before the request a timer that is due on exactly the tick of the timeout and lives across transfers, so that the timeout is the last action of a shared timer event and a back-to-back transfer with the same timeout joins that event again.",
     "note": "where CiA 301 does not fix the client's reaction an allowed set is used: a malformed response may be ignored (then the timeout path is checked) or end the transfer once with a non-zero code and at most one abort frame - never code 0; an object smaller than the buffer or a segmented answer to a <= 4-byte upload may complete with the server's bytes as a prefix or be refused; an abort with a foreign multiplexer may be ignored or taken. The timeout is per response. NMT resets during a transfer are C20's. Second/third transfers after a deviation use 8 probe transfers, not every size",
     "jobs": {
-        "quick": [J("c19", c, deadline=150) for c in range(26)] + [J("c19", c, defs=CL2, deadline=150) for c in (0, 1, 14, 15, 24, 25)] + [J("c19", c, deadline=150, opts=SLOW) for c in (0, 1, 24)] + [J("c19", c, deadline=150, opts={"pool": 1}) for c in (0, 1, 24)] + [J("c19", c, deadline=150, opts={"appt": a}) for c in (0, 24) for a in (1, 2)],
-        "thorough": [J("c19", c, deadline=550) for c in range(26)] + [J("c19", c, defs=CL2, deadline=550) for c in (0, 1, 14, 15, 24, 25)] + [J("c19", c, deadline=550, opts=SLOW) for c in (0, 1, 24)] + [J("c19", c, deadline=550, opts={"pool": 1}) for c in (0, 1, 24)] + [J("c19", c, deadline=550, opts={"appt": a}) for c in (0, 1, 24) for a in (1, 2)],
+        "quick": [J("c19", c, deadline=150) for c in range(26)] + [J("c19", c, defs=CL2, deadline=150) for c in (0, 1, 14, 15, 24, 25)] + [J("c19", c, deadline=150, opts=SLOW) for c in (0, 1, 24)] + [J("c19", c, deadline=150, opts={"pool": 1}) for c in (0, 1, 24)] + [J("c19", c, deadline=150, opts={"appt": a}) for c in (0, 24) for a in (1, 2, 3)],
+        "thorough": [J("c19", c, deadline=550) for c in range(26)] + [J("c19", c, defs=CL2, deadline=550) for c in (0, 1, 14, 15, 24, 25)] + [J("c19", c, deadline=550, opts=SLOW) for c in (0, 1, 24)] + [J("c19", c, deadline=550, opts={"pool": 1}) for c in (0, 1, 24)] + [J("c19", c, deadline=550, opts={"appt": a}) for c in (0, 1, 24) for a in (1, 2, 3)],
     },
 }
 
